@@ -411,7 +411,10 @@ class TermEval:
                 fval = self.ev(func, env, fn, depth)
             except ExtractionError:
                 fval = None
-            if isinstance(fval, Opaque) and isinstance(fval.key, tuple) and fval.key[0] == "ref":
+            known = isinstance(fval, Opaque) and isinstance(fval.key, tuple) and fval.key[0] == "ref" and (
+                fval.key[1] in self.tree.funcs or fval.key[1] in self.tree.classes or fval.key[1].startswith("sympy.")
+            )
+            if known:
                 callee = fval.key[1]
             elif fval is not None:
                 args = [self.ev(a, env, fn, depth) for a in node.args]
